@@ -787,6 +787,21 @@ impl TcpConnecter {
       }
       attempt_count += 1;
 
+      // An event published before this actor subscribed is not in its queue: the socket and
+      // the context set their flag before they publish.
+      if !self.socket_logic.core().is_running()
+        || self
+          .context
+          .inner()
+          .shutdown_initiated
+          .load(std::sync::atomic::Ordering::Acquire)
+      {
+        last_connect_attempt_error = Some(ZmqError::Internal(
+          "Connecter shutdown by closing socket or context (pre-connect).".into(),
+        ));
+        break 'connecter_life_loop;
+      }
+
       match system_event_rx.try_recv() {
         Ok(SystemEvent::ContextTerminating) => {
           last_connect_attempt_error = Some(ZmqError::Internal(
